@@ -170,7 +170,14 @@ class Program(object):
                     raise AnalysisError('syntax error in %s: %s' % (path, e))
                 self.modules[rel] = ModuleInfo(rel, path, src, tree)
         from .inline import Inliner
-        self.inlined = Inliner(self.modules).run()
+        from . import normalise
+        self.inlined = []
+        for _round in range(5):
+            ch = normalise.simple_passes(self.modules, self.inlined)
+            log = Inliner(self.modules).run()
+            self.inlined.extend(log)
+            if not ch and not log:
+                break
         for m in self.modules.values():
             if m.name.startswith('examples'):
                 continue
